@@ -75,7 +75,7 @@ static void run_stream(const KV *kv, const char *f)
 		if (r == 1 || n == 0) off += (r == 1 ? n : 0); else { rc = r; }
 		if (r != 1 && n != 0) break;
 	}
-	uint8_t out[1024]; size_t outl = 0; int fr = rc;
+	uint8_t out[16384]; size_t outl = 0; int fr = rc;
 	if (rc == 1) {
 		if (is_kdf) { sm3_kdf_finish(&c->kdf, out); outl = (size_t)outlen; }
 		else if (!strcmp(api, "native")) {
@@ -93,7 +93,7 @@ static void run_stream(const KV *kv, const char *f)
 static void run_call(const KV *kv, const char *f)
 {
 	const char *api = kv_str(kv, "api", "generic"), *alg = kv_str(kv, "alg", "sm3");
-	uint8_t out[4096]; size_t outl = 0; int rc = -99;
+	uint8_t out[16384]; size_t outl = 0; int rc = -99;
 	vt_begin("Call"); vt_int("id", kv_int(kv, "id", 0)); vt_str("f", f); if (kv_has(kv, "mayrefuse")) vt_int("mayrefuse", 1); vt_str("api", api); vt_str("alg", alg);
 	if (!strcmp(f, "hash")) {
 		size_t n; uint8_t *m = kv_hex(kv, "msg", &n); vt_bytes("in", m, n);
